@@ -160,20 +160,40 @@ def _short(x):
     return s if len(s) < 400 else s[:400] + "..."
 
 
-def _nice_model(eng, pc, extra, inputs, timeout_ms=4000):
-    """Prefer a model in which all symbolic input scalars are small dyadic rationals."""
+class Assignment:
+    """model-like object: explicit values for the input symbols; everything else evaluated by substitution"""
+
+    def __init__(self, pairs):
+        self.pairs = pairs
+
+    def eval(self, e, model_completion=True):
+        return z3.simplify(z3.substitute(e, *self.pairs))
+
+    def value(self, e):
+        from vf.zeval import feval
+        from vf.symx import _num
+
+        if not hasattr(self, "_env"):
+            self._env = {v.get_id(): (lambda n: int(n) if isinstance(n, int) else float(n))(_num(c)) for v, c in self.pairs}
+            self._keep = []
+            self._cache = {}
+        self._keep.append(e)  # keep terms alive so that ids stay unique
+        return feval(e, self._env, self._cache)
+
+
+def _input_symbols(inputs):
     syms = []
 
     def walk(x):
         if isinstance(x, SV):
             if z3.is_const(x.e) and x.e.decl().kind() == z3.Z3_OP_UNINTERPRETED:
                 syms.append(x.e)
-        elif isinstance(x, np.ndarray) and x.dtype == object:
-            for v in x.ravel():
-                walk(v)
         elif isinstance(x, np.ndarray) and x.dtype.names:
             for n in x.dtype.names:
                 walk(x[n])
+        elif isinstance(x, np.ndarray) and x.dtype == object:
+            for v in x.ravel():
+                walk(v)
         elif isinstance(x, dict):
             for v in x.values():
                 walk(v)
@@ -182,17 +202,41 @@ def _nice_model(eng, pc, extra, inputs, timeout_ms=4000):
                 walk(v)
 
     walk(inputs)
-    for denom, bound in ((4, 64), (64, 1024)):
-        s = z3.Solver()
-        s.set("timeout", timeout_ms)
-        s.add(*pc, *eng.axioms, *extra)
-        for i, v in enumerate(syms):
+    seen, out = set(), []
+    for v in syms:
+        if v.get_id() not in seen:
+            seen.add(v.get_id())
+            out.append(v)
+    return out
+
+
+def _nice_model(eng, pc, extra, inputs, m0=None, timeout_ms=4000):
+    """Prefer a model in which all symbolic input scalars are small dyadic rationals (exact in float64):
+    round a solver model and re-validate every constraint by substitution (no solver call)."""
+    import fractions
+
+    syms = _input_symbols(inputs)
+    if m0 is None:
+        m0 = _any_model(eng, list(pc) + list(extra))
+        if m0 is None:
+            return None
+    constraints = list(pc) + list(extra)
+    for denom in (1, 4, 64, 4096):
+        pairs = []
+        for v in syms:
+            val = model_value(m0, v)
             if v.sort() == z3.RealSort():
-                k = z3.Int("nice!%d" % i)
-                s.add(v * denom == z3.ToReal(k), k >= -bound * denom, k <= bound * denom)
-        if s.check() == z3.sat:
-            return s.model()
-    return None
+                fr = fractions.Fraction(round(float(val) * denom), denom)
+                pairs.append((v, z3.RealVal(str(fr))))
+            else:
+                pairs.append((v, z3.IntVal(int(val))))
+        a = Assignment(pairs)
+        try:
+            if all(z3.is_true(a.eval(c)) for c in constraints):
+                return a
+        except z3.Z3Exception:
+            break
+    return m0
 
 
 class Result:
@@ -283,7 +327,7 @@ def run_harness(h: Harness, res: Result, *, tier, timeout_ms, seed, known, prop,
                     continue
                 if inputs is None:
                     inputs = p["inputs"]
-                m = _nice_model(eng, p["pc"], [z3.Not(v.formula)] + hints, inputs) or v.model
+                m = _nice_model(eng, p["pc"], [z3.Not(v.formula)] + hints, inputs, m0=v.model) or v.model
                 _handle_cex(h, res, prop, c.name, m, inputs, known, replay_dir, detail="obligation refuted by solver")
             else:
                 res.stats["unknown"] += 1
@@ -338,12 +382,17 @@ def _inputs_of(eng, fn, p):
 
 
 def _any_model(eng, pc):
-    s = z3.Solver()
-    s.set("timeout", 20000)
-    s.add(*pc, *eng.axioms)
-    if s.check() == z3.sat:
-        return s.model()
-    return None
+    from vf.symx import _solve
+
+    goal = list(pc) + list(eng.axioms)
+    try:
+        r, m, _ = _solve(goal, 5000, tactic="qfnra-nlsat")
+        if r == z3.sat:
+            return m
+    except z3.Z3Exception:
+        pass
+    r, m, _ = _solve(goal, 20000)
+    return m if r == z3.sat else None
 
 
 def _cross_validate(h, m, inputs, checks):
@@ -455,6 +504,10 @@ def main(prop, harness_factory, *, level, explanation, assumptions, trusted_base
     tier = a.tier if a.tier in ("quick", "thorough") else "quick"
     seed = int(os.environ.get("VERIF_SEED", "0") or 0)
     t0 = time.time()
+    import warnings
+
+    warnings.simplefilter("ignore")
+    np.seterr(all="ignore")
     known = load_known()
     res = Result()
     replay_dir = os.path.join(ROOT, "replays")
